@@ -34,15 +34,22 @@ class DDSPathUtils(object):
                     DDSErrorCode.PATH_NOT_ABSOLUTE,
                 )
             # TODO: more checks
-            return DDSPath(p)
+            return DDSPathUtils._normalized(p)
         if isinstance(p, pathlib.Path):
             if not p.is_absolute():
                 raise DDSException(
                     f"Provided path {p} is not absolute. All paths must be absolute",
                     DDSErrorCode.PATH_NOT_ABSOLUTE,
                 )
-            return DDSPath(p.absolute().as_posix())
+            return DDSPathUtils._normalized(p.absolute().as_posix())
         raise NotImplementedError(f"Cannot make a path from object type {type(p)}: {p}")
+
+    @staticmethod
+    def _normalized(p: str) -> DDSPath:
+        # One spelling for one path: //a, /a/ and /a are the path of the segment a (repeated and trailing
+        # separators carry no segment). The checks made on the paths (one path kept below another one for
+        # instance) compare segments.
+        return DDSPath("/" + "/".join([seg for seg in p.split("/") if seg]))
 
     @staticmethod
     def split(p: DDSPath) -> Tuple[str, Optional[DDSPath]]:
